@@ -138,14 +138,16 @@ def check_case(tmp, rnd, stats, case_id, violations, tier):
     auto = rnd.random() < 0.6
     pats = rnd.choice([[], ["ex*/"], ["x*.cmake"], ["ex*/", "x*.cmake"], ["only_txt/"], ["*.cmake"], ["deep/"], ["sub.dir/*.cmake"]])
     prefix = rnd.choice([None, "Pfx"])
+    sep = rnd.choice([".", ".", "::", "-"])
     cfg = os.path.join(tmp, f"cfg{case_id}.yaml")
     with open(cfg, "w") as f:
-        f.write("input:\n  auto_exclude_directories_without_cmake: %s\nlogging:\n  version: 1\n" % ("true" if auto else "false"))
+        f.write("input:\n  auto_exclude_directories_without_cmake: %s\nrst:\n  module_path_separator: '%s'\n"
+                "logging:\n  version: 1\n" % ("true" if auto else "false", sep))
     out = os.path.join(tmp, f"out{case_id}")
     args = ["-s", cfg, "-o", out] + (["-r"] if recursive else []) + sum([["-e", p] for p in pats], []) + \
            (["-p", prefix] if prefix else []) + [tree]
     case = {"driver": "tree", "case": case_id, "args": args[2:], "recursive": recursive, "auto_exclude": auto,
-            "patterns": pats, "prefix": prefix}
+            "patterns": pats, "prefix": prefix, "separator": sep}
     stats.current_case = case
     before = snapshot(tree)
     code, _ = run_main(args)
@@ -183,7 +185,7 @@ def check_case(tmp, rnd, stats, case_id, violations, tier):
         if sorted(have) != sorted(want) or len(set(have)) != len(have):
             bad("C14", {"index": rel, "have": have, "want": want})
         title = text.split("\n")[2] if len(text.split("\n")) > 2 else ""
-        want_title = top_name if rel == "." else top_name + "." + rel
+        want_title = top_name if rel == "." else top_name + sep + rel
         if title != want_title:
             bad("C14", {"index": rel, "title": title, "want": want_title})
         for e in have:
@@ -198,7 +200,7 @@ def check_case(tmp, rnd, stats, case_id, violations, tier):
                 continue
             ls = open(page).read().split("\n")
             relp = os.path.normpath(os.path.join(rel, f))
-            want_name = top_name + "." + (relp[:-6] if relp.endswith(".cmake") else relp)
+            want_name = top_name + sep + (relp[:-6] if relp.endswith(".cmake") else relp)
             if len(ls) < 6 or ls[2] != want_name or ls[1] != "#" * len(want_name) or ls[3] != ls[1] or \
                     ".. module:: " + want_name not in ls[:8]:
                 bad("C12", {"page": relp, "title": ls[2] if len(ls) > 2 else None, "want": want_name})
